@@ -39,7 +39,7 @@ theorem flatAll_addNode (T : Tables) (strict : Bool) (s s' : St) (sg : Pe.Seg)
     simp [St.flatAll, hf, pending, flatL_append, flatL, flat]
   | cons f fs =>
     simp only [hf] at h
-    cases ha : admit T strict false (some f.name) (some f.rows) f.kids (.seg sg) with
+    cases ha : admitChild T strict false (some f.name) (some f.rows) f.kids (.seg sg) with
     | error e => simp [ha, bind, Except.bind] at h
     | ok u =>
       simp only [ha, bind, Except.bind, pure, Except.pure] at h
@@ -69,7 +69,7 @@ theorem flatAll_openFrame (T : Tables) (strict : Bool) (s s' : St) (g : String) 
       simp [St.flatAll, hf, pending, flatL]
     | cons f fs =>
       simp only [hf] at h
-      cases ha : admit T strict false (some f.name) (some f.rows) f.kids (.grp g rows []) with
+      cases ha : admitChild T strict false (some f.name) (some f.rows) f.kids (.grp g rows []) with
       | error e => simp [ha] at h
       | ok u2 =>
         simp only [ha, pure, Except.pure] at h
